@@ -157,6 +157,14 @@ Judge(e) ==
    ELSE JudgeStep(e, c2) \o JudgeInv(e, c2) \o
         JudgeVersions(e, IF e.event = "Reset" THEN e.ops ELSE Append(opsSoFar, <<e.event, e.k, e.v>>)))
 
+(* The iteration clause read literally (ascending order of the key bytes).  Judged apart from  *)
+(* the other judgements: it fails on the unchanged code exactly when a live key is a proper    *)
+(* prefix of another (known finding), and must neither block the cache nor hide other tags.    *)
+JudgeByteOrder(e) ==
+  LET c2 == Obs(e) IN
+  IF ~Sane(c2) \/ e.proj.iterErr THEN <<>>
+  ELSE Tag(e.proj.iter = IterBytesOf(c2), "Inv.IterationAscendingByteOrder")
+
 TraceInit == /\ content = Empty /\ tree = Nil /\ limit = 0 /\ prov = "built" /\ dbst = "empty"
              /\ l = 1 /\ bad = <<>> /\ prevOK = FALSE /\ opsSoFar = <<>>
              /\ TLCSet(1, [x \in {} |-> <<>>])
@@ -177,7 +185,7 @@ TraceNext ==
          /\ prov' = "built" /\ dbst' = "empty"
          /\ opsSoFar' = IF e.event = "Reset" THEN e.ops
                          ELSE IF e.fan THEN opsSoFar ELSE Append(opsSoFar, <<e.event, e.k, e.v>>)
-         /\ bad' = bad \o Fresh(e.event, j)
+         /\ bad' = bad \o Fresh(e.event, j \o JudgeByteOrder(e))
          /\ IF j = <<>> /\ c2 \notin DOMAIN Cache THEN TLCSet(1, Cache @@ (c2 :> ProjKey(e.proj))) ELSE TRUE
 
 TraceSpec == TraceInit /\ [][TraceNext]_tvars
